@@ -39,6 +39,8 @@ static CUR_LABEL_LEN: AtomicUsize = AtomicUsize::new(0);
 static IN_EMERGENCY: AtomicBool = AtomicBool::new(false);
 static PROP_PTR: AtomicPtr<u8> = AtomicPtr::new(std::ptr::null_mut());
 static PROP_LEN: AtomicUsize = AtomicUsize::new(0);
+/// NUL-terminated path of the emergency replay file (leaked at init; read from signal handlers)
+static EMERGENCY_PATH: AtomicPtr<u8> = AtomicPtr::new(std::ptr::null_mut());
 
 /// name of the property being checked (for the emergency replay file)
 pub fn set_property(id: &'static str) {
@@ -129,9 +131,9 @@ fn emergency(code: i32, size: usize) -> ! {
         unsafe { libc::_exit(code) }
     }
     unsafe {
-        let path = b"/verif/replays/emergency.json\0";
+        let path = EMERGENCY_PATH.load(Ordering::SeqCst);
         let fd = libc::open(
-            path.as_ptr() as *const libc::c_char,
+            if path.is_null() { b"/verif/replays/emergency.json\0".as_ptr() as *const libc::c_char } else { path as *const libc::c_char },
             libc::O_WRONLY | libc::O_CREAT | libc::O_TRUNC,
             0o644,
         );
@@ -200,6 +202,9 @@ static INIT: Once = Once::new();
 /// SIGABRT handler.
 pub fn init() {
     INIT.call_once(|| {
+        let mut path = format!("{}/replays/emergency.json", super::verif_dir()).into_bytes();
+        path.push(0);
+        EMERGENCY_PATH.store(Box::leak(path.into_boxed_slice()).as_mut_ptr(), Ordering::SeqCst);
         let default = panic::take_hook();
         panic::set_hook(Box::new(move |info| {
             let msg = if let Some(s) = info.payload().downcast_ref::<&str>() {
